@@ -82,7 +82,7 @@ func init() {
 			if tier == "thorough" {
 				return 2000
 			}
-			return 120
+			return 300
 		},
 		MinNT: func(tier string) int {
 			if tier == "thorough" {
